@@ -319,6 +319,16 @@ fn get_formula_index(formula: &str, shared_formulas: &[String]) -> Option<i32> {
     None
 }
 
+/// The number in a numeric `<v>` element. A missing, unreadable or non-finite value
+/// ("NaN", "inf", an overflowing literal like "1e999") is read as 0: a cell never
+/// holds a number that is not finite
+fn parse_cell_number(cell_value: Option<&str>) -> f64 {
+    match cell_value.unwrap_or("0").parse::<f64>() {
+        Ok(v) if v.is_finite() => v,
+        _ => 0.0,
+    }
+}
+
 enum CellArrayKind {
     None,
     DynamicArray(i32, i32),
@@ -370,14 +380,14 @@ fn get_cell_from_excel(
                 if let Some(anchor) = anchor_cell {
                     Cell::SpillCell {
                         v: SpillValue::Number(
-                            cell_value.unwrap_or("0").parse::<f64>().unwrap_or(0.0),
+                            parse_cell_number(cell_value),
                         ),
                         s: cell_style,
                         a: anchor,
                     }
                 } else {
                     Cell::NumberCell {
-                        v: cell_value.unwrap_or("0").parse::<f64>().unwrap_or(0.0),
+                        v: parse_cell_number(cell_value),
                         s: cell_style,
                     }
                 }
@@ -485,7 +495,7 @@ fn get_cell_from_excel(
         match cell_type {
             "b" => make_cell(FormulaValue::Boolean(cell_value == Some("1"))),
             "n" => make_cell(FormulaValue::Number(
-                cell_value.unwrap_or("0").parse::<f64>().unwrap_or(0.0),
+                parse_cell_number(cell_value),
             )),
             "e" => {
                 // For compatibility reasons Excel does not put the value #SPILL! but adds it as a metadata
